@@ -8,7 +8,7 @@ from .core import Broken, finish
 
 def lattice_check(ctx, gen, judge, harness, libs, rule, nontrivial, assumptions, level="exploration",
                   sig=lambda f, b: f, extra_env=None, harness_args=(),
-                  build=(), judge_heap="8g", describe=None, keep=lambda f: True, crash_is_mine=True):
+                  build=(), judge_heap="8g", describe=None, keep=lambda f: True, crash_is_mine=True, post_run=None):
     if build:
         ctx.build(*build)
     env = {"TIER": ctx.tier, "SEED": str(ctx.seed)}
@@ -33,6 +33,8 @@ def lattice_check(ctx, gen, judge, harness, libs, rule, nontrivial, assumptions,
                       "the real code crashed / aborted (exit %d) on case %s: %s" % (r.returncode, json.dumps(culprit), (r.stdout or "")[-300:]),
                       {"case": culprit})
         return finish(ctx, level, {"evaluations": done, "distinct_nontrivial": 0, "rule": rule, "samples": cases[:2]}, assumptions)
+    if post_run is not None:
+        post_run(ctx, cases, obs)          # a second stage of observation (never a verdict): completes the records of obs
     bad, jr = ctx.judge(judge, obs, env=env, heap=judge_heap, timeout=(5400 if ctx.thorough else 1500))
     nobs = sum(1 for _ in open(obs))
     if ctx.replay_only is None and nobs != len(cases):
